@@ -62,6 +62,14 @@ func ruleX1(c *Ctx) {
 				}
 			}
 		}
+		// a helper that latches and closes on every path counts as both
+		for _, ci := range calls(rd) {
+			if g := m.callee(ci.Common()); g != nil && isLatchClose(m, g, setErr, closeM) && domInstr(ci, r) {
+				if cl == nil || domInstr(cl, ci) {
+					cl, se = ci, ci
+				}
+			}
+		}
 		bad := ""
 		switch {
 		case cl == nil:
@@ -131,6 +139,9 @@ func ruleX1(c *Ctx) {
 						}
 						if m.callee(ci.Common()) == closeM {
 							hasClose = ci
+						}
+						if g := m.callee(ci.Common()); g != nil && isLatchClose(m, g, setErr, closeM) {
+							bad = ""
 						}
 					}
 				}
@@ -502,4 +513,27 @@ func ruleX5(c *Ctx) {
 		}
 	}
 	c.ok("X5", "mux.Close", c.M.method(pkgMux, "mux", "Close").Pos(), bad == "", "mux.Close can always complete", bad)
+}
+
+// isLatchClose: g latches the error and then closes the mux on every path.
+func isLatchClose(m *Module, g, setErr, closeM *ssa.Function) bool {
+	if g == nil || g.Blocks == nil || g == setErr || g == closeM {
+		return false
+	}
+	var se, cl ssa.CallInstruction
+	for _, ci := range m.callsTo(g, setErr) {
+		se = ci
+	}
+	for _, ci := range m.callsTo(g, closeM) {
+		cl = ci
+	}
+	if se == nil || cl == nil || !domInstr(se, cl) {
+		return false
+	}
+	for _, r := range returnsOf(g) {
+		if !domInstr(cl, r) {
+			return false
+		}
+	}
+	return true
 }
